@@ -59,7 +59,8 @@ def form_programs(tier):
         P("mass%dD" % d, d, vgen.mul(U, Vv), sym=True)
         P("laplace%dD" % d, d, ["inner", gu, gv], sym=True)
     P("convection2D", 2, vgen.mul(["inner", gu, b], Vv))
-    P("reaction_f2D", 2, vgen.mul(vgen.mul(f, pp), vgen.mul(U, Vv)), sym=True, updatable=["f"])
+    # the updatable field enters through its values AND its gradient (two arrays that an update must both refresh)
+    P("reaction_f2D", 2, vgen.mul(vgen.add(vgen.mul(f, pp), vgen.Dx(f, 0)), vgen.mul(U, Vv)), sym=True, updatable=["f"])
     P("vlaplace2D", 2, ["inner", gu, gv], 2, 2, sym=True)
     P("divdiv2D", 2, vgen.mul(["diverg", U, False], ["diverg", Vv, False]), 2, 2, sym=True)
     P("stokesB2D", 2, vgen.mul(["diverg", U, False], Vv), 2, 1)
@@ -78,7 +79,9 @@ _CLS = {}
 
 
 def _registry_path(tier):
-    return os.path.join(os.environ.get("XDG_CACHE_HOME", "."), "c08_classes_%s.json" % tier)
+    import hashlib
+    dg = hashlib.sha1(json.dumps({k: v[0] for k, v in form_programs(tier).items()}, sort_keys=True).encode()).hexdigest()[:10]
+    return os.path.join(os.environ.get("XDG_CACHE_HOME", "."), "c08_classes_%s_%s.json" % (tier, dg))
 
 
 def compiled(names, tier):
